@@ -48,3 +48,10 @@ for _p in sorted(glob.glob(os.path.join(os.path.dirname(__file__), "conf_*.py"))
     SUITES.update(getattr(_m, "SUITES", {}))
     PROPS.update(getattr(_m, "PROPS", {}))
     AXIOM_ALLOW.update(getattr(_m, "AXIOM_ALLOW", set()))
+
+# properties with a half in each role run both connection suites
+for _p in sorted(glob.glob(os.path.join(os.path.dirname(__file__), "conf_*.py"))):
+    _m = importlib.import_module("checklib." + os.path.basename(_p)[:-3])
+    for _pid in getattr(_m, "CLIENT_ALSO", []):
+        if _pid in PROPS and "client" not in PROPS[_pid]["suites"]:
+            PROPS[_pid]["suites"] = PROPS[_pid]["suites"] + ["client"]
